@@ -29,7 +29,7 @@ use sourmash::encodings::HashFunctions;
 use sourmash::ffi::signature::{signatures_load_buffer, signatures_save_buffer, SourmashSignature};
 use sourmash::ffi::utils::ForeignObject;
 use sourmash::prelude::*;
-use sourmash::signature::Signature;
+use sourmash::signature::{Signature, SigsTrait};
 use sourmash::sketch::hyperloglog::HyperLogLog;
 use sourmash::sketch::minhash::{KmerMinHash, KmerMinHashBTree};
 use sourmash::sketch::Sketch;
@@ -600,6 +600,7 @@ fn step(_: &mut (), ws: &[&str]) -> String {
                                     })
                                     .collect::<String>()
                             })
+                            .map(|x| if x.is_empty() { "-".to_string() } else { x })
                             .collect::<Vec<_>>()
                             .join("+");
                         if t.is_empty() { "-".into() } else { t }
@@ -1185,9 +1186,28 @@ fn gen(a: &Args) {
             }
         }
         let s = fmt_list(&l);
+        let present: Vec<(u64, Mol)> = l
+            .iter()
+            .flat_map(|s| s.sketches.iter())
+            .filter_map(|k| if let Sk::Mh(m) = k { Some((m.ksize as u64, m.mol.clone())) } else { None })
+            .collect();
         for _ in 0..3 {
-            let k = if r.chance(1, 4) { 0 } else { *r.pick(&[21u64, 31, 51, 22, 7]) };
-            let m = *r.pick(&["any", "dna", "DNA", "protein", "dayhoff", "hp", "Protein"]);
+            let hit = if present.is_empty() { None } else { Some(r.pick(&present).clone()) };
+            let k = match (&hit, r.below(8)) {
+                (_, 0) | (_, 1) => 0,
+                (Some(h), 2..=6) => h.0,
+                _ => *r.pick(&[21u64, 31, 51, 22, 7]),
+            };
+            let m = match (&hit, r.below(8)) {
+                (_, 0) | (_, 1) => "any",
+                (Some(h), 2..=5) => match h.1 {
+                    Mol::Dna => *r.pick(&["dna", "DNA"]),
+                    Mol::Protein => *r.pick(&["protein", "Protein"]),
+                    Mol::Dayhoff => "dayhoff",
+                    _ => "hp",
+                },
+                _ => *r.pick(&["dna", "DNA", "protein", "dayhoff", "hp", "Protein"]),
+            };
             o.op(&format!("filter {} {} {}", k, m, s));
         }
     }
@@ -1302,11 +1322,19 @@ fn dump() {
     for hf in [HashFunctions::Murmur64Dna, HashFunctions::Murmur64Protein, HashFunctions::Murmur64Dayhoff, HashFunctions::Murmur64Hp] {
         println!("molecule {:?} {}", hf, hf);
     }
-    let d = Signature::default();
-    println!("default class {}", hs(&d.class()));
-    println!("default license {}", hs(&d.license()));
-    println!("default email {}", hs(&d.email()));
-    println!("default version {:016x}", observe(&d).version);
+    // the serde defaults, behaviourally: load an object that carries only the required fields
+    let d = &Signature::from_reader(&b"[{\"hash_function\":\"x\",\"signatures\":[]}]"[..]).unwrap()[0];
+    let od = observe(d);
+    println!("default class {}", hs(&od.class));
+    println!("default license {}", hs(&od.license));
+    println!("default email {}", hs(&od.email));
+    println!("default version {:016x}", od.version);
+    println!("default filename {}", hopt(&od.filename));
+    println!("default name {}", hopt(&od.name));
+    for miss in ["hash_function", "signatures"] {
+        let t = format!("[{{\"{}\":{}}}]", if miss == "signatures" { "hash_function" } else { "signatures" }, if miss == "signatures" { "\"x\"" } else { "[]" });
+        println!("required {} {}", miss, Signature::from_reader(t.as_bytes()).is_err());
+    }
 }
 
 fn main() {
